@@ -1,6 +1,6 @@
 (* Extraction of the C12 selecting iterations (Model/GlobSel.v). ExtrOcamlBasic only. *)
 From Coq Require Import Extraction ExtrOcamlBasic.
-From T38 Require Import Base.Bytes Model.Glob Model.GlobSel.
+From T38 Require Import Base.Bytes Model.Glob Model.GlobSel Model.Resp Model.GlobSelEsc.
 Extraction Language OCaml.
 Extraction "model.ml" Z.add Z.of_N Nat.add multi_glob_parse scan_multi search_multi out_items out_count hook_walk pdel_hooks
-  shortcut_count glob_test Z.to_N.
+  shortcut_count glob_test Z.to_N pdel_select transport_words.
